@@ -138,12 +138,34 @@ func edgeLoopUndo(c *Ctx, ru *Rule, fnK, acqK, relK string) {
 					}
 				}
 			}
+			if ctr == nil {
+				_ = ctr
+			}
 			if ctr != nil {
 				// every edge over which an incremented value reaches the bound (loop-carried or at the loop exit)
 				es := phiEdgesWhere(phi, func(v ssa.Value) bool { b, ok := v.(*ssa.BinOp); return ok && b.Op == token.ADD })
 				isErr := func(v ssa.Value) bool { ci, i := resultOf(v); return ci == acq && i == 1 }
 				w, _ := (&Cut{Fn: f, From: []ssa.Instruction{acq.(ssa.Instruction)}, TargetEdge: edgeSet(es), EdgeCut: edgeNil(isErr, true), StopAtFrom: true}).Run(c)
 				okCount = w == "" && len(es) > 0
+			}
+		}
+	}
+	// form B: the bound is the range index of the acquire loop at the failing iteration (every earlier
+	// iteration succeeded because a failing one leaves the loop — okBreak below)
+	if prefix != nil && !okCount {
+		if idx, ok := prefix.High.(*ssa.BinOp); ok && idx.Op == token.ADD {
+			if p, isPhi := idx.X.(*ssa.Phi); isPhi && p.Comment == "rangeindex" {
+				if k, isC := constInt(idx.Y); isC && k == 1 {
+					h, body := innermostLoop(f, acq.(ssa.Instruction).Block())
+					// the index belongs to the acquire loop, and the acquired element is edges[index]
+					elemOK := false
+					if recv, isLd := strip2(callArgs(acq)[0]).(*ssa.UnOp); isLd {
+						if ia, isIA := recv.X.(*ssa.IndexAddr); isIA && ia.Index == ssa.Value(idx) && isLoadOfField(rmP+".resourceScope.edges")(strip2(ia.X)) {
+							elemOK = true
+						}
+					}
+					okCount = h != nil && p.Block() == h && body[acq.(ssa.Instruction).Block()] && elemOK
+				}
 			}
 		}
 	}
@@ -408,6 +430,83 @@ func checkC03(c *Ctx, r *Report) {
 			}
 		}
 	}
+	// SetPeer: the transient scope that is released and the system scope that stays in the edge list are the pair
+	// the connection is charged to on that path: the allow-listed pair while it is (still) allow-listed, the
+	// standard pair otherwise — in particular after transferAllowedToStandard moved it.
+	if f := r3.need(m("connectionScope", "SetPeer")); f != nil {
+		rmT := rmP + ".resourceManager"
+		kind := func(v ssa.Value) string {
+			v = strip2(v)
+			for _, k := range []struct{ field, kind string }{{"system", "std-system"}, {"transient", "std-transient"}, {"allowlistedSystem", "allow-system"}, {"allowlistedTransient", "allow-transient"}} {
+				if isLoadOfField(rmT + "." + k.field)(v) {
+					return k.kind
+				}
+			}
+			return "?"
+		}
+		var relT ssa.CallInstruction
+		for _, call := range callsIn(f, RS("ReleaseForChild")) {
+			relT = call
+		}
+		// the system scope placed in the new edge list
+		var sysV ssa.Value
+		var sysSite ssa.Instruction
+		allInstrs(f, func(in ssa.Instruction) {
+			st, ok := in.(*ssa.Store)
+			if !ok {
+				return
+			}
+			ia, ok := st.Addr.(*ssa.IndexAddr)
+			if !ok {
+				return
+			}
+			if k, isC := constInt(ia.Index); !isC || k != 1 {
+				return
+			}
+			// value: &X.resourceScope of a *systemScope
+			if fa, ok := st.Val.(*ssa.FieldAddr); ok && strings.Contains(fa.X.Type().String(), "systemScope") {
+				sysV, sysSite = fa.X, in
+			} else if ld, ok := st.Val.(*ssa.UnOp); ok {
+				if fa, ok := ld.X.(*ssa.FieldAddr); ok && strings.Contains(fa.X.Type().String(), "systemScope") {
+					sysV, sysSite = fa.X, in
+				}
+			}
+		})
+		key := m("connectionScope", "SetPeer") + ": released transient / kept system are the pair the connection is charged to on that path"
+		if relT == nil || sysV == nil {
+			r3.Fail(key, f.Pos(), "release of the transient scope or the system entry of the new edge list not found", "")
+		} else {
+			marks := map[string]func(ssa.Instruction) bool{"transfer": callPred(m("connectionScope", "transferAllowedToStandard"))}
+			edgeMarks := map[string]EdgePred{
+				"allowlisted":    edgeBool(isLoadOfField(rmP+".connectionScope.isAllowlisted"), true),
+				"notAllowlisted": edgeBool(isLoadOfField(rmP+".connectionScope.isAllowlisted"), false),
+			}
+			bad := ""
+			total := 0
+			for _, site := range []struct {
+				in   ssa.Instruction
+				v    ssa.Value
+				want string
+			}{{relT.(ssa.Instruction), embeddingBase(callArgs(relT)[0]), "transient"}, {sysSite, sysV, "system"}} {
+				obs, overflow := enumPathsTo(f, site.in, marks, edgeMarks, []ssa.Value{site.v}, 5000)
+				if overflow || len(obs) == 0 {
+					bad = "path enumeration failed"
+					break
+				}
+				total += len(obs)
+				for _, o := range obs {
+					want := "std-" + site.want
+					if o.passed["allowlisted"] && !o.passed["transfer"] {
+						want = "allow-" + site.want
+					}
+					if got := kind(o.vals[0]); got != want {
+						bad = fmt.Sprintf("on path b%v (allowlisted=%v transferred=%v) the %s scope used is %s, expected %s", o.trace, o.passed["allowlisted"], o.passed["transfer"], site.want, got, want)
+					}
+				}
+			}
+			r3.Check(bad == "", key, instrPos(relT.(ssa.Instruction)), total, "", "the transient charge is released from a scope that does not hold it (the other one keeps it forever), or the edge list names a system scope the connection is not charged to", bad)
+		}
+	}
 
 	// ---- R4 ---------------------------------------------------------------
 	r4 := r.Rule("C03-R4", "E3/E1", 6, "release once: done=true only in doneUnlocked past the done check; per-subnet slot returned only past !done && ip valid; taken only in openConnection for a valid ip")
@@ -531,4 +630,14 @@ func checkC03(c *Ctx, r *Report) {
 		}
 		r6.Check(n > 0, "writers of "+key, token.NoPos, n, fmt.Sprintf("%d writes, all in resources methods / doneUnlocked", n), "no writer found (field renamed?)", "")
 	}
+}
+
+// embeddingBase: for `x.resourceScope` (a load of the embedded pointer field) returns x.
+func embeddingBase(v ssa.Value) ssa.Value {
+	if ld, ok := v.(*ssa.UnOp); ok && ld.Op == token.MUL {
+		if fa, ok := ld.X.(*ssa.FieldAddr); ok {
+			return fa.X
+		}
+	}
+	return v
 }
